@@ -812,6 +812,8 @@ enum GcK {
     Extend(usize, bool),
     /// entries with hostile ids (0, u64::MAX) and random parents
     HostileIds,
+    /// two entries on the tip, the last one with id u64::MAX
+    MaxLast,
 }
 #[derive(Clone, Debug, PartialEq)]
 enum RespK {
@@ -951,9 +953,9 @@ impl World {
             IdK::Zero => 0,
             IdK::One => 1,
             IdK::Tip => tip,
-            IdK::TipPlus1 => tip + 1,
+            IdK::TipPlus1 => tip.wrapping_add(1),
             IdK::Max => u64::MAX,
-            IdK::Far => tip + 1000,
+            IdK::Far => tip.wrapping_add(1000),
         }
     }
     async fn hash_of(&self, k: &HashK, rng: &mut Rng) -> SaitoHash {
@@ -1140,14 +1142,23 @@ impl World {
                             let pre = rnd32(rng);
                             g.prehashes.push(pre);
                             g.previous_block_hashes.push(prev);
-                            g.block_ids.push(tip_id + 1 + j as u64);
-                            g.block_ts.push(self.now + j as u64);
+                            g.block_ids.push(tip_id.wrapping_add(1 + j as u64));
+                            g.block_ts.push(self.now.wrapping_add(j as u64));
                             g.txs.push(*with_txs && j % 2 == 0);
                             g.gts.push(j % 2 == 1);
                             prev = hash(&[prev.as_slice(), pre.as_slice()].concat());
                         }
                         g
                     }
+                    GcK::MaxLast => GhostChainSync {
+                        start: tip_hash,
+                        prehashes: vec![rnd32(rng), rnd32(rng)],
+                        previous_block_hashes: vec![tip_hash, rnd32(rng)],
+                        block_ids: vec![tip_id.wrapping_add(1), u64::MAX],
+                        block_ts: vec![self.now, self.now + 1],
+                        txs: vec![false, false],
+                        gts: vec![true, false],
+                    },
                     GcK::HostileIds => GhostChainSync {
                         start: rnd32(rng),
                         prehashes: vec![rnd32(rng), rnd32(rng), rnd32(rng)],
@@ -1514,6 +1525,10 @@ struct CaseSpec {
     seed: u64,
     /// (original position, action)
     steps: Vec<(usize, Act)>,
+    /// keep running after a listed state-changing finding (to reach its consequences)
+    continue_after_known: bool,
+    /// wall-clock budget of one step of this case, if not the default; and the listed finding a stall belongs to
+    stall_budget_s: Option<(u64, &'static str)>,
 }
 
 #[derive(Default, Debug)]
@@ -1537,6 +1552,8 @@ struct Runner {
     ghost_anc0: bool,
     /// rate limiter quotas found not enforced during the current step
     limiter_failures: Vec<String>,
+    /// invalid-block counter of each attacker connection as the model has been told so far
+    inv_seen: BTreeMap<u64, u64>,
 }
 
 impl Runner {
@@ -1555,6 +1572,8 @@ impl Runner {
             Ok(Some(())) => 0,
         };
         let now = self.w.now;
+        let inv_now = self.inv_count(idx).await;
+        self.inv_seen.insert(idx, inv_now);
         match self.w.trace.last_mut() {
             Some(last) if repeat_of && last.term == term && last.outcome == outcome && last.idx == idx && last.now == now && outcome != 3 => last.repeat += 1,
             _ => self.w.trace.push(MEv { now, idx, term, outcome, finding: String::new(), repeat: 1 }),
@@ -1806,6 +1825,33 @@ impl Runner {
         Ok(())
     }
 
+    /// verdicts of the consensus thread on blocks that were parked when they arrived move the invalid-block
+    /// counter of the peer they came from at a later time: told to the model as an input
+    async fn deferred_verdicts(&mut self) {
+        for c in [2u64, 3, 4, IDX_NEVER] {
+            let (exists, count, last) = {
+                let peers = self.w.n.peers.read().await;
+                match peers.index_to_peers.get(&c) {
+                    Some(p) => {
+                        let (cnt, l) = parse_limiter(&format!("{:?}", p.invalid_block_limiter));
+                        (true, cnt, l)
+                    }
+                    None => (false, 0, 0),
+                }
+            };
+            let _ = last;
+            let seen = self.inv_seen.get(&c).copied().unwrap_or(0);
+            if exists && count > seen {
+                self.w.trace.push(MEv { now: self.w.now, idx: c, term: format!("EInvalid {}", gal::n(count - seen)), outcome: 0, finding: String::new(), repeat: 1 });
+            }
+            if exists {
+                self.inv_seen.insert(c, count);
+            } else {
+                self.inv_seen.remove(&c);
+            }
+        }
+    }
+
     async fn inv_count(&self, idx: u64) -> u64 {
         let peers = self.w.n.peers.read().await;
         peers.index_to_peers.get(&idx).map(|p| parse_limiter(&format!("{:?}", p.invalid_block_limiter)).0).unwrap_or(0)
@@ -1878,8 +1924,8 @@ async fn run_case(spec: &CaseSpec) -> CaseOut {
             return CaseOut { build_error: Some(e), ..Default::default() };
         }
     };
-    let mut r = Runner { w, out: CaseOut::default(), log_eval: spec.log_eval, ghost_anc0: true, limiter_failures: vec![] };
-    if r.log_eval {
+    let mut r = Runner { w, out: CaseOut::default(), log_eval: spec.log_eval, ghost_anc0: true, limiter_failures: vec![], inv_seen: BTreeMap::new() };
+    if r.log_eval || std::env::var("C11_LOG").is_ok() {
         EVAL_ON.store(if std::env::var("C11_LOG").is_ok() { 2 } else { 1 }, Ordering::Relaxed);
     }
     // crafted blocks that must be rejected, by hash
@@ -1969,6 +2015,7 @@ async fn run_case(spec: &CaseSpec) -> CaseOut {
                 break;
             }
         }
+        r.deferred_verdicts().await;
         if !r.limiter_failures.is_empty() {
             let f = r.limiter_failures[0].clone();
             r.out.failures.push((pos, act.label(), None, format!("rate limit not enforced: {}", f)));
@@ -1992,7 +2039,7 @@ async fn run_case(spec: &CaseSpec) -> CaseOut {
                         r.out.failures.push((pos, act.label(), id, format!("rejected input {} changed honest-visible state: {}", served_kind, txt)));
                         // the state is no longer what an honest run would have: the case ends here
                         // (C11_CONTINUE=1: keep going, to look at the consequences of a listed finding)
-                        if std::env::var("C11_CONTINUE").is_err() {
+                        if std::env::var("C11_CONTINUE").is_err() && !(spec.continue_after_known && r.out.failures.last().map(|f| f.2.is_some()).unwrap_or(false)) {
                             break;
                         }
                     }
@@ -2031,6 +2078,8 @@ fn base_spec(kind: &str, seed: u64, steps: Vec<Act>) -> CaseSpec {
         n_blocks: 2,
         seed,
         steps: steps.into_iter().enumerate().collect(),
+        continue_after_known: false,
+        stall_budget_s: None,
     }
 }
 
@@ -2091,9 +2140,12 @@ fn scripted(seed: u64) -> Vec<CaseSpec> {
     a.push(Act::ADisconnect(IDX_NEVER, true));
     a.push(Act::ADisconnect(IDX_NEVER, false));
     v.push(base_spec("never-connected-index", seed, a));
-    if std::env::var("C11_EXPERIMENT").is_ok() {
-        v.push(base_spec("x-ghost-max-then-requests", seed, vec![Act::HConnect, Act::AConnect(2), Act::AMsg(2, Msg::Response(RespK::Valid(0))), Act::AMsg(2, Msg::GhostChain(GcK::HostileIds)), Act::AMsg(2, Msg::ChainReq(IdK::Zero, HashK::Zero, HashK::Zero)), Act::AMsg(2, Msg::GhostReq(IdK::One, HashK::Zero, HashK::Zero)), Act::Tick(1000), Act::HBlock(false)]));
-    }
+    // an unsolicited ghost chain whose last entry has id u64::MAX makes that the "latest block id"; a ghost chain
+    // request (authenticated connection) then loops over 2^64 ids in generate_ghost_chain: the handler never returns
+    let mut c = base_spec("ghost-max-id-stall", seed, vec![Act::HConnect, Act::AConnect(2), Act::AMsg(2, Msg::Response(RespK::Valid(0))), Act::AMsg(2, Msg::GhostChain(GcK::MaxLast)), Act::AMsg(2, Msg::GhostReq(IdK::One, HashK::Zero, HashK::Zero))]);
+    c.continue_after_known = true;
+    c.stall_budget_s = Some((8, "ghost-chain-max-id-request-stall"));
+    v.push(c);
     v
 }
 
@@ -2142,7 +2194,7 @@ fn random_msg(rng: &mut Rng) -> Msg {
         620..=659 => Msg::Services(rng.below(4) as usize),
         660..=679 => Msg::GhostChain(match rng.below(4) {
             0 => GcK::Empty,
-            1 => GcK::HostileIds,
+            1 => if rng.chance(1, 2) { GcK::HostileIds } else { GcK::MaxLast },
             _ => GcK::Extend(1 + rng.below(3) as usize, rng.chance(1, 2)),
         }),
         680..=719 => Msg::Services(rng.below(4) as usize),
@@ -2185,13 +2237,30 @@ fn random_case(rng: &mut Rng, thorough: bool) -> CaseSpec {
     if presync {
         steps.push(Act::HConnect);
     }
+    // what the generator believes about the attacker's connections (the node may have dropped them meanwhile)
+    let mut connected: BTreeSet<u64> = BTreeSet::new();
+    let mut keyed: BTreeSet<u64> = BTreeSet::new();
     let mut pending_serves = 0usize;
     while steps.len() < len {
-        let conn = match rng.below(10) {
-            0..=5 => 2,
-            6..=7 => 3,
-            8 => 4,
+        let conn = match rng.below(20) {
+            0..=11 => 2,
+            12..=15 => 3,
+            16..=18 => 4,
             _ => IDX_NEVER,
+        };
+        // most hostile traffic comes over an open connection, about half of it after the attacker's own handshake
+        let mut prepare = |steps: &mut Vec<Act>, rng: &mut Rng, want_key: bool| {
+            if conn == IDX_NEVER {
+                return;
+            }
+            if !connected.contains(&conn) && rng.chance(9, 10) {
+                steps.push(Act::AConnect(conn));
+                connected.insert(conn);
+            }
+            if connected.contains(&conn) && !keyed.contains(&conn) && (want_key || rng.chance(1, 2)) {
+                steps.push(Act::AMsg(conn, Msg::Response(RespK::Valid(0))));
+                keyed.insert(conn);
+            }
         };
         let r = rng.below(100);
         let act = match r {
@@ -2201,20 +2270,35 @@ fn random_case(rng: &mut Rng, thorough: bool) -> CaseSpec {
             14..=15 => Act::HDisconnect,
             16..=24 => Act::Tick(*rng.pick(&[100u64, 1000, 2100, 5000, 61_000])),
             25..=27 => Act::NMine,
-            28..=35 => Act::AConnect(conn),
-            36..=38 => Act::ADisconnect(conn, rng.chance(1, 2)),
-            39..=44 => {
-                // a complete handshake on the connection
-                steps.push(Act::AConnect(conn));
-                Act::AMsg(conn, Msg::Response(RespK::Valid(0)))
+            28..=30 => {
+                connected.insert(conn);
+                Act::AConnect(conn)
             }
-            45..=74 => Act::AMsg(conn, random_msg(rng)),
-            75..=76 => Act::AFlood(conn, random_msg(rng), *rng.pick(&[3u32, 20, 101, 130])),
-            77..=86 => {
+            31..=34 => {
+                connected.remove(&conn);
+                Act::ADisconnect(conn, rng.chance(1, 2))
+            }
+            35..=72 => {
+                prepare(&mut steps, rng, false);
+                let m = random_msg(rng);
+                if let Msg::Undecodable(_) = m {
+                    connected.remove(&conn);
+                }
+                Act::AMsg(conn, m)
+            }
+            73..=75 => {
+                prepare(&mut steps, rng, false);
+                Act::AFlood(conn, random_msg(rng), *rng.pick(&[3u32, 20, 101, 130]))
+            }
+            76..=86 => {
+                let wk = rng.chance(9, 10);
+                prepare(&mut steps, rng, wk);
                 pending_serves += 1;
                 Act::AAnnounce(conn, random_blockk(rng))
             }
             87..=89 => {
+                let wk = rng.chance(9, 10);
+                prepare(&mut steps, rng, wk);
                 pending_serves += 1;
                 Act::AAnnounceUnknown(conn, pick_idk(rng))
             }
@@ -2352,6 +2436,9 @@ fn worker(args: &Args, from: usize, to: usize) {
         let spec = &spec_owned;
         emit(format!("@@BEGIN\t{}", i));
         emit(format!("@@DESC\t{}", spec_json(i, spec)));
+        if let Some((b, id)) = spec.stall_budget_s {
+            emit(format!("@@BUDGET\t{}\t{}", b, id));
+        }
         let out = rt.block_on(run_case(spec));
         if let Some(e) = &out.build_error {
             emit(format!("@@FAIL\t0\t-\tharness could not build the world: {}", e));
@@ -2387,6 +2474,8 @@ fn worker(args: &Args, from: usize, to: usize) {
 
 #[derive(Default)]
 struct CaseAcc {
+    /// (seconds, listed finding) when a stall of this case is a listed finding
+    budget: Option<(u64, String)>,
     desc: String,
     fails: Vec<(String, String)>,
     coq: Option<String>,
@@ -2430,7 +2519,11 @@ fn supervisor(args: &Args) {
         let mut done = false;
         let mut why_dead = String::new();
         loop {
-            match rxl.recv_timeout(step_budget) {
+            let budget_now = match cur.as_ref().and_then(|c| c.1.budget.clone()) {
+                Some((b, _)) => Duration::from_secs(b),
+                None => step_budget,
+            };
+            match rxl.recv_timeout(budget_now) {
                 Ok(line) => {
                     let parts: Vec<&str> = line.splitn(4, '\t').collect();
                     match parts[0] {
@@ -2442,6 +2535,11 @@ fn supervisor(args: &Args) {
                             if let Some((i, acc)) = cur.as_mut() {
                                 acc.desc = line.splitn(2, '\t').nth(1).unwrap_or("{}").to_string();
                                 descs[*i] = acc.desc.clone();
+                            }
+                        }
+                        "@@BUDGET" => {
+                            if let Some((_, acc)) = cur.as_mut() {
+                                acc.budget = Some((parts[1].parse().unwrap_or(60), parts.get(2).unwrap_or(&"").to_string()));
                             }
                         }
                         "@@STEP" => {
@@ -2509,7 +2607,7 @@ fn supervisor(args: &Args) {
                     }
                 }
                 Err(std::sync::mpsc::RecvTimeoutError::Timeout) => {
-                    why_dead = format!("stall: no progress for {} s of wall time", step_budget.as_secs());
+                    why_dead = format!("stall: the handler did not return within {} s of wall time", budget_now.as_secs());
                     let _ = child.kill();
                     break;
                 }
@@ -2527,7 +2625,13 @@ fn supervisor(args: &Args) {
         }
         restarts += 1;
         if let Some((i, acc)) = cur.take() {
-            summary.oracle_failure(i, &format!("{} during {}", why_dead, acc.last_step), &acc.desc);
+            match &acc.budget {
+                Some((_, id)) if why_dead.starts_with("stall") => {
+                    summary.known_hit(id, i, &format!("{} during {}", why_dead, acc.last_step));
+                    summary.count("known_finding", id);
+                }
+                _ => summary.oracle_failure(i, &format!("{} during {}", why_dead, acc.last_step), &acc.desc),
+            }
             summary.count("stalled_or_died", "1");
             while coq_cases.len() <= i {
                 coq_cases.push("mkCase false false false [] [[2; 0]; [3; 0]; [4; 0]; [9; 0]]".to_string());
@@ -2547,7 +2651,7 @@ fn supervisor(args: &Args) {
     summary.case_descs = descs;
     summary.notes.push("back-pressure is not exercised: all channels have capacity 1 000 000 and are drained after every event; in the real node RoutingThread::send_to_verification_thread spins without yielding while every verification channel is full (it relies on run_thread's is_ready_to_process gate and on the verification tasks running on other worker threads), and the `send().await` calls towards the consensus / routing / mining channels block while those are full".to_string());
     let header = "From Saito Require Import Base Handlers HandlersCheck.\nFrom Coq Require Import String.\nOpen Scope string_scope.\nOpen Scope N_scope.\nDefinition check (c : HandlersCheck.hcase) : bool := HandlersCheck.check_case c.\n";
-    summary.case_files = gal::write_shards(&args.out, "c11", header, "HandlersCheck.hcase", &coq_cases, args.shards).expect("write shards");
+    summary.case_files = gal::write_shards(&args.out, "c11", header, "HandlersCheck.hcase", &coq_cases, args.shards.max((coq_cases.len() + 299) / 300)).expect("write shards");
     summary.write(&args.out);
 }
 
